@@ -3,7 +3,7 @@
 
    Machine: Model/DispatchConc.v part 1 — FIFO queue filled in submission order, W ingestion workers with atomic
    steps Recv / Insert, a schedule is an arbitrary list of worker ids. KeepNewer is store.Alerts.SetIfNotOlder,
-   what aggrGroup.insert calls since fix d822580; Unconditional is store.Alerts.Set, what it called before.
+   what aggrGroup.insert calls since fix dd37f22; Unconditional is store.Alerts.Set, what it called before.
    rt (routing: fingerprint -> groups) is universally quantified. *)
 From AM Require Import Base.Prelude Model.DispatchConc Proofs.DispatchConcProofs.
 
@@ -63,7 +63,7 @@ Theorem c14_drain_possible m W rt ups g :
   i_drained (i_exec m W rt (concat (map (fun _ => [0%nat; 0%nat]) ups)) (mkIst ups ∅ g)) = true.
 Proof. exact (drain_possible_lemma m W rt ups g). Qed.
 
-(* Regression record of the defect repaired by d822580 (finding F3): with the unconditional store.Set, 2 workers
+(* Regression record of the defect repaired by dd37f22 (finding F3): with the unconditional store.Set, 2 workers
    and 2 updates of one fingerprint, the 4-step schedule Recv0 Recv1 Insert1 Insert0 leaves the group holding the
    OLDER version. The same witness is corpus/C14/01-*.json and is replayed on the real dispatcher on every run. *)
 Definition wit_fire := mkUpd 0 1 (-60) 300 0.
